@@ -3,6 +3,7 @@ from .. import callgraph
 from ..rules import results as R
 from ..rules import ownership
 from ..rules.flow import find_path_avoiding, describe_path
+from ..util import is_assign
 
 EXPLANATION = (
     "Static decision of structural clauses of C19 over every function of the library (src/**): (R1.alloc) "
@@ -27,6 +28,74 @@ EXPLANATION = (
     "(6) a member released on a failure path is reset before the object is used or destroyed again (R27, library-wide: free/close/fclose/munmap or a function that frees its parameter, the member given directly or through a local copy that can still be current). Decides these clauses; a NULL result that is tolerated rather than dereferenced is not decided.")
 
 ALLOC_EXT = {"malloc", "calloc", "realloc", "strdup", "strndup", "aligned_alloc", "posix_memalign"}
+
+
+def _sticky_members(ctx, fns):
+    """R1.sticky for objects that carry their own `status` member (the RLE encoder, the Thrift encoder/decoder): a helper
+    that can store a failure there has reported it nowhere else, so a status-returning function that called one on
+    its object must not reach a constant success return without reading the member in between."""
+    P = ctx.P
+    byfile = {}
+    for f in fns:
+        byfile.setdefault(f.file, []).append(f)
+
+    def status_param(f):
+        out = []
+        for i, p_ in enumerate(f.params):
+            t = p_["t"].replace("const ", "").replace("*", "").strip()
+            rec = P.records.get(t) or P.records.get(t[:-2] if t.endswith("_t") else t)
+            if "*" in p_["t"] and rec and any(fl["n"] == "status" and "status" in fl["t"] for fl in rec["fields"]):
+                out.append((i, p_["d"], rec["name"]))
+        return out
+    # setters: file-local (or any library) functions that store a non-success value into X->status of a parameter X
+    setters = {}
+    changed = True
+    rounds = 0
+    while changed and rounds < 5:
+        changed = False
+        rounds += 1
+        for f in fns:
+            for i, d, rec in status_param(f):
+                if (f.name, i) in setters:
+                    continue
+                direct = any(is_assign(n) and n.c[0].strip().k == "MemberExpr" and n.c[0].strip().name == "status"
+                             and n.c[0].strip().get("rec") == rec and n.c[1].cv != 0
+                             and n.c[0].strip().c[0].strip_casts().k == "DeclRefExpr" and n.c[0].strip().c[0].strip_casts().get("d") == d
+                             for n in f.body.walk())
+                via = any(c.callee and any((g.name, ai) in setters for g in P.by_name.get(c.callee, []))
+                          and a.strip_casts().k == "DeclRefExpr" and a.strip_casts().get("d") == d
+                          for c in f.calls() for ai, a in enumerate(c.args()) if a is not None)
+                if direct or via:
+                    setters[(f.name, i)] = rec
+                    changed = True
+    n = 0
+    for fn in fns:
+        if fn.ret != "carquet_status_t" or fn.cfg is None:
+            continue
+        oks = [r for r in fn.returns() if r.c and r.c[0] is not None and r.c[0].cv == 0]
+        if not oks:
+            continue
+        for i, d, rec in status_param(fn):
+            def reads_status(e, d=d):
+                return e.k == "MemberExpr" and e.name == "status" and e.c and e.c[0].strip_casts().k == "DeclRefExpr" and \
+                    e.c[0].strip_casts().get("d") == d
+            w = fn.cfg.where()
+            for c in fn.calls():
+                hit = [ai for ai, a in enumerate(c.args()) if a is not None and a.strip_casts().k == "DeclRefExpr"
+                       and a.strip_casts().get("d") == d and any((g.name, ai) in setters for g in P.by_name.get(c.callee or "", []))]
+                if not hit or c.i not in w:
+                    continue
+                if any(g.ret == "carquet_status_t" for g in P.by_name.get(c.callee or "", [])):
+                    continue        # it reports through its result as well: dropped results are R1.status's business
+                n += 1
+                b, idx = w[c.i]
+                path = find_path_avoiding(fn.cfg, reads_status, lambda e: e in oks, None, (b, idx + 1))
+                key = "sticky-member|%s:%s|%s@%d" % (P.rel(fn.file), fn.name, c.callee, n)
+                ctx.ob("R1.sticky", key, P.where(c),
+                       "%s: after %s(), which can record a failure in the object's status member, no constant success return is reached "
+                       "without reading that member" % (fn.name, c.callee), path is None,
+                       "path: %s" % describe_path(fn, fn.cfg, path) if path else "")
+    return n
 
 
 def run(ctx):
@@ -104,3 +173,5 @@ def run(ctx):
                        "CARQUET_OK is returned" % (fn.name, init), path is None,
                        "path: %s" % describe_path(fn, fn.cfg, path) if path else "")
     ctx.floor("C19 sticky codec initialisations", ns, 6)
+    nsm = _sticky_members(ctx, fns)
+    ctx.floor("C19 calls that may set a sticky status member", nsm, 4)
